@@ -61,8 +61,9 @@ type State struct {
 }
 
 type deferred struct {
-	flag string // Bool term: this defer was registered
-	call *ssa.Defer
+	flag    string // Bool term: this defer was registered
+	call    *ssa.Defer
+	prepaid bool // ghost effects already applied at registration (defer inside a loop)
 }
 
 func (s *State) clone() *State {
@@ -108,6 +109,7 @@ type fnCtx struct {
 	comps   map[string]string // component -> elem sort
 	compDeclared map[string]bool
 	strlits map[string]string
+	flags   map[string]string
 	implDone map[string]bool
 	rets    []retSite
 	params  []ParamInfo
@@ -139,6 +141,7 @@ type loopInfo struct {
 	backs   []*ssa.BasicBlock
 	headSt  *State // state at header after havoc+assume
 	preSt   *State
+	autoGhost map[string]string
 }
 
 func (c *fnCtx) fresh(hint string) string {
@@ -538,6 +541,9 @@ func (c *fnCtx) assumeWFB(st *State, v SymVal, bound string) {
 			facts = append(facts, c.rangeFact(v.S, v.T))
 		case KRef:
 			facts = append(facts, app("<=", app("rootid", v.S), bound))
+			if tg := c.refTag(v.T); tg != "" {
+				facts = append(facts, sImp(sNot(sEq(v.S, "nil")), app("=", app("rtype", v.S), tg)))
+			}
 		case KSlice:
 			facts = append(facts, app("<=", app("rootid", v.Fs[0].S), bound))
 			z := c.zeroInt()
@@ -548,6 +554,7 @@ func (c *fnCtx) assumeWFB(st *State, v SymVal, bound string) {
 		case KIface:
 			facts = append(facts, app("<=", app("rootid", app("iref", v.S)), bound), app(">=", app("itag", v.S), "0"))
 			facts = append(facts, app("=", app("=", app("itag", v.S), "0"), app("=", v.S, "nilI")))
+			facts = append(facts, sImp(sNot(sEq(app("iref", v.S), "nil")), app("=", app("rtype", app("iref", v.S)), app("itag", v.S))))
 		case KStr:
 			facts = append(facts, app("<=", "0", app("slen", v.S)))
 		case KStruct, KTuple:
@@ -561,6 +568,25 @@ func (c *fnCtx) assumeWFB(st *State, v SymVal, bound string) {
 	}
 	walk(v)
 	c.assume(st, sAnd(facts...))
+}
+
+// refTag: the type tag of pointers to named struct types (objects carry one dynamic type).
+func (c *fnCtx) refTag(t types.Type) string {
+	if t == nil {
+		return ""
+	}
+	pt, ok := t.Underlying().(*types.Pointer)
+	if !ok {
+		return ""
+	}
+	n, ok := pt.Elem().(*types.Named)
+	if !ok {
+		return ""
+	}
+	if _, isS := n.Underlying().(*types.Struct); !isS {
+		return ""
+	}
+	return fmt.Sprint(c.g.tagOf(types.NewPointer(n)))
 }
 
 func (c *fnCtx) zeroInt() string {
@@ -748,12 +774,12 @@ func (c *fnCtx) val(st *State, v ssa.Value) SymVal {
 
 func (c *fnCtx) fnToken(name string) string {
 	key := "fn:" + name
-	if n, ok := c.strlits[key]; ok {
+	if n, ok := c.flags[key]; ok {
 		return n
 	}
 	n := c.fresh("fnval")
 	c.declare(n, "Int")
-	c.strlits[key] = n
+	c.flags[key] = n
 	return n
 }
 
@@ -887,6 +913,14 @@ func (c *fnCtx) binop(st *State, op token.Token, x, y SymVal, t types.Type, pos 
 		case token.NEQ:
 			return mkBool(sNot(sEq(x.S, y.S)))
 		}
+	case KSlice:
+		// only comparison with nil is legal Go
+		switch op {
+		case token.EQL:
+			return mkBool(sEq(x.Fs[0].S, y.Fs[0].S))
+		case token.NEQ:
+			return mkBool(sNot(sEq(x.Fs[0].S, y.Fs[0].S)))
+		}
 	case KStruct:
 		fx, fy := flatten(x), flatten(y)
 		var eqs []string
@@ -945,10 +979,8 @@ func (c *fnCtx) intBinop(st *State, op token.Token, x, y SymVal, t types.Type, p
 		if k, ok := isConstInt(y.S); ok && k.IsInt64() && k.Int64() >= 0 && k.Int64() < 4096 {
 			return mkInt(c.wrap(app("*", x.S, pow2(int(k.Int64())).String()), t), t)
 		}
-		bits, _, _ := intInfo(t)
-		r := c.define("shl", "Int", c.wrap(app("*", x.S, app("pow2", y.S)), t))
 		c.needPow2()
-		_ = bits
+		r := c.define("shl", "Int", c.wrap(app("*", x.S, app("pow2", y.S)), t))
 		return mkInt(r, t)
 	case token.SHR:
 		if k, ok := isConstInt(y.S); ok && k.IsInt64() && k.Int64() >= 0 && k.Int64() < 4096 {
@@ -980,10 +1012,10 @@ func (c *fnCtx) intBinop(st *State, op token.Token, x, y SymVal, t types.Type, p
 }
 
 func (c *fnCtx) needPow2() {
-	if c.strlits["$pow2"] != "" {
+	if c.flags["$pow2"] != "" {
 		return
 	}
-	c.strlits["$pow2"] = "1"
+	c.flags["$pow2"] = "1"
 	fmt.Fprintf(&c.sb, "(declare-fun pow2 (Int) Int)\n")
 	for i := 0; i <= 64; i++ {
 		c.assertGlobal(app("=", app("pow2", fmt.Sprint(i)), pow2(i).String()))
@@ -996,8 +1028,8 @@ func (c *fnCtx) needPow2() {
 func (c *fnCtx) bitUF(st *State, name string, x, y SymVal, t types.Type) SymVal {
 	bits, signed, _ := intInfo(t)
 	fn := fmt.Sprintf("%s_%d", name, bits)
-	if c.strlits["$uf:"+fn] == "" {
-		c.strlits["$uf:"+fn] = "1"
+	if c.flags["$uf:"+fn] == "" {
+		c.flags["$uf:"+fn] = "1"
 		fmt.Fprintf(&c.sb, "(declare-fun %s (Int Int) Int)\n", fn)
 	}
 	r := c.define(name, "Int", app(fn, x.S, y.S))
